@@ -180,7 +180,10 @@ class Options:
             option_number += delta
             if len(rawdata) < length:
                 raise UnparsableMessage("Option announced but absent")
-            option = option_number.create_option(decode=rawdata[:length])
+            try:
+                option = option_number.create_option(decode=rawdata[:length])
+            except UnicodeDecodeError:
+                raise UnparsableMessage("String option is not valid UTF-8")
             self.add_option(option)
             rawdata = rawdata[length:]
         return b""
